@@ -18,7 +18,7 @@ import (
 
 func init() { families["fields"] = family{gen: genFields, exec: execFields} }
 
-var fieldPieces = []string{"message", "*", "\x0b", "\x0c", "\u0085", "\u2028", "", "a", "b", "id: x", "data: injected", ":", " ", "\n", "\r", "\r\n", "\n\n", "\x00", "\xef\xbb\xbf", "é", "\xff", "7", "event: e", "\\n"}
+var fieldPieces = []string{"%0A", "%0D%0A", "%0d", "a%0Adata: x", "&#10;", "\\r\\n", "message", "*", "\x0b", "\x0c", "\u0085", "\u2028", "", "a", "b", "id: x", "data: injected", ":", " ", "\n", "\r", "\r\n", "\n\n", "\x00", "\xef\xbb\xbf", "é", "\xff", "7", "event: e", "\\n"}
 
 func genFieldText(r *rng.R) string {
 	n := r.Intn(5)
